@@ -241,7 +241,7 @@ void IniFile::write(const String& fname)
 		}
 	}
 	
-	if(_modified)
+	if(_modified || (fname.ok() && fname != _filename)) // a copy under another name is written even if nothing changed
 	{
 		TextFile file ((fname.ok())? fname: _filename, File::WRITE);
 		if(!file)
